@@ -12,7 +12,7 @@ import numpy as np
 from ..kernel import World, Violation, Discard, SutError, arr_rng, digest_of
 from .. import meshlib, simlib, seams
 
-SIMTYPES = ["Elastic", "Thermal", "PhaseField", "InElastic", "HyperElastic", "WeakForms"]
+SIMTYPES = ["Elastic", "Thermal", "PhaseField", "InElastic", "HyperElastic", "WeakForms", "Beam"]
 
 
 def mesh_digest(mesh) -> str:
@@ -61,6 +61,7 @@ FIELD_KEYS = {
     "InElastic": [("displacement", "elastic", 0)],
     "HyperElastic": [("displacement", "hyperelastic", 0), ("speed", "hyperelastic", 1), ("accel", "hyperelastic", 2)],
     "WeakForms": [("u", "weakForm", 0), ("v", "weakForm", 1), ("a", "weakForm", 2)],
+    "Beam": [("displacement", "beam", 0)],
 }
 
 def _result(sim, name, **kw):
@@ -77,6 +78,7 @@ RESULTS_AT_SAVE = {
     "InElastic": ["Svm", "ux"],
     "HyperElastic": ["W", "ux"],
     "WeakForms": ["u"],
+    "Beam": ["ux", "uy"],
 }
 
 
@@ -105,6 +107,13 @@ class HistWorld(World):
     def gen_config(cls, rng, tier, faults):
         lib = meshlib.library()
         st = SIMTYPES[int(rng.integers(len(SIMTYPES)))]
+        if st == "Beam":
+            # a frame of 2-3 beams with a fixed connection (its mesh comes from gmsh, one mesh per history)
+            from .fresh_beam import BeamFresh
+
+            spec = BeamFresh.gen_beam_config(rng)
+            return {"type": "Beam", "dim": spec["dim"], "meshes": ["__frame__"], "kind": "beam", "params": {}, "beam": spec, "folder0": ["", "A"][int(rng.integers(2))],
+                    "nops": int(rng.integers(10, 31 if tier == "quick" else 46)), "faults": bool(faults)}
         dim = 3 if (st in ("Elastic", "Thermal") and rng.random() < 0.15) else 2
         maxNn = 40 if tier == "quick" else 80
         if st in ("PhaseField", "InElastic", "HyperElastic", "WeakForms"):
@@ -141,7 +150,7 @@ class HistWorld(World):
         self.disk = seams.SimDisk(ctx)
         self.disk.install(_simu, _mesh)
         lib = meshlib.library()
-        self.raws = [lib[n] for n in cfg["meshes"]]
+        self.raws = [lib[n] for n in cfg["meshes"]] if self.type != "Beam" else []
         self.kind = cfg["kind"]
         self.params = dict(cfg["params"])
         self.snaps = []
@@ -152,14 +161,28 @@ class HistWorld(World):
         self._solved_since_commit = False
         self._extra_before_save = None
         with ctx.sut():
-            self.meshes = [meshlib.build(r) for r in self.raws]
-            self.mesh_i = 0
-            self.model = self._make_model(self.meshes[0])
             folder = self.disk.path(cfg["folder0"]) if cfg["folder0"] else ""
-            self.sim = simlib.make_sim(self.type, self.meshes[0], self.model, folder=folder)
+            if self.type == "Beam":
+                self._new_frame(folder)
+            else:
+                self.meshes = [meshlib.build(r) for r in self.raws]
+                self.mesh_i = 0
+                self.model = self._make_model(self.meshes[0])
+                self.sim = simlib.make_sim(self.type, self.meshes[0], self.model, folder=folder)
         self.folder = cfg["folder0"]
         self.mesh_list = [0]  # world's mesh index per entry of the simulation's mesh list
         self._apply_load(0.0)
+
+    def _new_frame(self, folder):
+        from .fresh_beam import make_frame_sim
+
+        self.sim, self.beams, self.pts = make_frame_sim(self.cfg["beam"])
+        if folder:
+            self.sim.folder = folder
+        self.model = self.sim.model
+        self.meshes = [self.sim.mesh]
+        self.mesh_i = 0
+        self.raws = [meshlib.raw_of(self.sim.mesh, "frame")]
 
     def _make_model(self, mesh):
         if self.kind.startswith("wf_"):
@@ -178,6 +201,18 @@ class HistWorld(World):
 
     def _apply_load(self, val):
         sim = self.sim
+        if self.type == "Beam":
+            with self.ctx.sut():
+                un = list(sim.Get_unknowns())
+                sim.Bc_Init()
+                m = sim.mesh
+                joint = np.asarray(m.Nodes_Point(self.pts[1]), dtype=int)
+                for a, b in zip(joint[:-1], joint[1:]):
+                    sim.add_connection_fixed(np.array([a, b]))
+                sim.add_dirichlet(m.Nodes_Point(self.pts[0]), [0.0] * len(un), un)
+                sim.add_dirichlet(m.Nodes_Point(self.pts[2]), [float(val)], ["y"])
+            self.load_val = val
+            return
         raw = self.raws[self.mesh_i]
         ta, tb = self._edges(raw)
         with self.ctx.sut():
@@ -290,7 +325,7 @@ class HistWorld(World):
             w["get_results"] = w["set_iter"] = w["result_iter"] = 0
         if not self.saved:
             w["load_simu"] = 0
-        if len(self.meshes) < 2 or self.type == "WeakForms":
+        if len(self.meshes) < 2 or self.type in ("WeakForms", "Beam"):
             w["setmesh"] = 0
         if len(simlib.sim_algos(self.type)) < 2:
             w["algo"] = 0
@@ -413,7 +448,7 @@ class HistWorld(World):
             return self._with_disk_fault(fault, lambda: self._act_result_iter(op["i"], op["name"]), lambda: self._ver_result_iter(op["i"], op["name"]))
 
         if name == "setmesh":
-            if op["mesh"] >= len(self.meshes) or self.type == "WeakForms":
+            if op["mesh"] >= len(self.meshes) or self.type in ("WeakForms", "Beam"):
                 return "skip"
             with ctx.sut():
                 # a distinct object per assignment: the history must keep them apart
@@ -530,10 +565,13 @@ class HistWorld(World):
             loaded = (name, s2, rec)
         # restart the scenario from scratch (new process): rebuild the world's live objects
         with ctx.sut():
-            self.meshes = [meshlib.build(r) for r in self.raws]
-            self.mesh_i = 0
-            self.model = self._make_model(self.meshes[0])
-            self.sim = simlib.make_sim(self.type, self.meshes[0], self.model, folder="")
+            if self.type == "Beam":
+                self._new_frame("")
+            else:
+                self.meshes = [meshlib.build(r) for r in self.raws]
+                self.mesh_i = 0
+                self.model = self._make_model(self.meshes[0])
+                self.sim = simlib.make_sim(self.type, self.meshes[0], self.model, folder="")
         self.folder = ""
         self.snaps = []
         self.saved = {}
